@@ -84,6 +84,8 @@ def configs(tier, seed):
         if n <= 3:
             out.append({"name": f"combined-{name}", "kind": "kmatrix", "n": n, "entries": entries, "order": list(range(n)),
                         "j": "sym", "split": True})
+            out.append({"name": f"combined-overlap-{name}", "kind": "kmatrix", "n": n, "entries": entries, "order": list(range(n)),
+                        "j": "sym", "split": "overlap"})
             # same model objects evaluated again after the rate parameters changed in place (as the optimiser does)
             out.append({"name": f"reevaluated-{name}", "kind": "kmatrix", "n": n, "entries": entries, "order": list(range(n)),
                         "j": "sym", "reevaluate": True})
@@ -184,6 +186,12 @@ def build_kmatrix(cfg, val):
 
     names = [f"c{i}" for i in range(cfg["n"])]
     entries = {(names[to], names[fr]): _param(f"k_{to}_{fr}", val(f"k_{to}_{fr}")) for to, fr in cfg["entries"]}
+    if cfg.get("split") == "overlap":
+        # an entry declared in both K-matrices: the later K-matrix of the megacomplex overrides (documented for combine)
+        (to, fr) = cfg["entries"][0]
+        old = dict(entries)
+        old[(names[to], names[fr])] = _param(f"kold_{to}_{fr}", val(f"kold_{to}_{fr}"))
+        return [KMatrix(label="km1", matrix=old), KMatrix(label="km2", matrix={(names[to], names[fr]): entries[(names[to], names[fr])]})], names
     if cfg.get("split") and len(entries) > 1:
         items = list(entries.items())
         h = len(items) // 2
